@@ -40,7 +40,7 @@ class C19(TreeCheck):
         self._levels = getattr(self, "_levels", 0) + out["levels"]
         self._probes = getattr(self, "_probes", 0) + out["probes"]
         m = case["meta"]
-        return (m.get("max_depth"), m.get("depth_to"), m.get("fork_at"), m.get("kind"), m.get("mode"), tuple(sorted(set(out["constructs"]))))
+        return (m.get("max_depth"), m.get("depth_to"), m.get("fork_at"), m.get("kind"), m.get("variants"), m.get("mode"), tuple(sorted(set(out["constructs"]))))
 
     def extra_coverage(self):
         return {"nested_levels_observed": getattr(self, "_levels", 0), "depth_probes_observed": getattr(self, "_probes", 0)}
